@@ -2,10 +2,18 @@ use crate::util::{Ctx, Report, Tier, Verdict};
 use serde_json::Value;
 
 pub mod c01;
+pub mod c02;
+pub mod c05;
+pub mod c06;
+pub mod c14;
 
 pub fn run(ctx: &Ctx) -> Option<Report> {
     Some(match ctx.id.as_str() {
         "C01" => c01::run(ctx),
+        "C02" => c02::run(ctx),
+        "C05" => c05::run(ctx),
+        "C06" => c06::run(ctx),
+        "C14" => c14::run(ctx),
         _ => return None,
     })
 }
@@ -29,6 +37,10 @@ pub fn replay(id: &str, file: &str) -> i32 {
     let case = &v["case"];
     let verdict = match id {
         "C01" => c01::replay(case),
+        "C02" => c02::replay(case),
+        "C05" => c05::replay(case),
+        "C06" => c06::replay(case),
+        "C14" => c14::replay(case),
         _ => {
             eprintln!("unknown property {id}");
             return 2;
